@@ -29,11 +29,11 @@ const toFile = "apps/nsq_to_file"
 func c19finish(c *an.Ctx) {
 	router := c.Fn(toFile, "(*FileLogger).router")
 	syncFn := c.Fn(toFile, "(*FileLogger).Sync")
-	writeFn := c.Fn(toFile, "(*FileLogger).Write")
+	we := fileWriteEffect(c)
 	handle := c.Fn(toFile, "(*FileLogger).HandleMessage")
 	finish := c.P.Func("github.com/nsqio/go-nsq", "(*Message).Finish")
 	disable := c.P.Func("github.com/nsqio/go-nsq", "(*Message).DisableAutoResponse")
-	if router == nil || syncFn == nil || writeFn == nil || handle == nil || finish == nil || disable == nil {
+	if router == nil || syncFn == nil || handle == nil || finish == nil || disable == nil {
 		if finish == nil || disable == nil {
 			c.Anchor("go-nsq.Message.Finish/DisableAutoResponse")
 		}
@@ -55,7 +55,7 @@ func c19finish(c *an.Ctx) {
 		w, f := q.Find()
 		// (b) from after every write: Finish only after a *later* successful Sync
 		var writes []ssa.Instruction
-		for _, wc := range an.CallsTo(router, writeFn) {
+		for _, wc := range we.callsIn(router) {
 			writes = append(writes, wc.(ssa.Instruction))
 		}
 		q2 := &an.PathQ{Fn: router, StartAfter: writes, Sink: q.Sink, CutEdge: q.CutEdge}
@@ -70,10 +70,13 @@ func c19finish(c *an.Ctx) {
 		}
 	}
 	// write failures end the process (never skip a message silently)
-	for _, wc := range an.CallsTo(router, writeFn) {
+	if len(we.callsIn(router)) == 0 {
+		c.Bad(router, "write failure is fatal", router.Pos(), "the router writes nothing to the output file", nil)
+	}
+	for _, wc := range we.callsIn(router) {
 		_, fail := an.ErrEdges(wc.Value())
 		q := &an.PathQ{Fn: router, StartEdges: fail, Sink: func(in ssa.Instruction, _ *an.PathState) bool {
-			return isCallToOn(in, finish, nil) || isCallToOn(in, writeFn, nil) || isCallToOn(in, syncFn, nil)
+			return isCallToOn(in, finish, nil) || we.is(in) || isCallToOn(in, syncFn, nil)
 		}}
 		w, f := q.Find()
 		if f || len(fail) == 0 {
@@ -90,8 +93,12 @@ func c19finish(c *an.Ctx) {
 				continue
 			}
 			bodyWritten := false
-			for _, wc := range an.CallsTo(router, writeFn) {
-				if f, base := an.LoadedField(an.Strip(arg(wc, 0))); f != nil && f.Name() == "Body" && an.SameValue(base, st.Recv) {
+			for _, wc := range we.callsIn(router) {
+				_, payload := we.at(wc.(ssa.Instruction))
+				if payload == nil {
+					continue
+				}
+				if f, base := an.LoadedField(an.Strip(payload)); f != nil && f.Name() == "Body" && an.SameValue(base, st.Recv) {
 					bodyWritten = true
 				}
 			}
@@ -394,4 +401,32 @@ func c19noclobber(c *an.Ctx) {
 			}
 		}
 	}
+}
+
+// fileWriteEffect: "bytes are written to the logger's current output" – an invoke of Write on the value of FileLogger.writer,
+// or a call of a function of the package that does that on every path (FileLogger.Write on the pinned tree). The object is
+// the byte slice written.
+func fileWriteEffect(c *an.Ctx) *effect {
+	writerF := c.P.Field(toFile, "FileLogger", "writer")
+	return newEffect(c, toFile, func(in ssa.Instruction) (bool, ssa.Value) {
+		call, ok := in.(*ssa.Call)
+		if !ok || !call.Call.IsInvoke() || call.Call.Method.Name() != "Write" || len(call.Call.Args) != 1 {
+			return false, nil
+		}
+		if writerF == nil || !isLoadOfField(call.Call.Value, writerF) {
+			return false, nil
+		}
+		return true, call.Call.Args[0]
+	})
+}
+
+// callsIn: the instructions of fn that perform the effect, in program order.
+func (e *effect) callsIn(fn *ssa.Function) []ssa.CallInstruction {
+	var out []ssa.CallInstruction
+	an.Instrs(fn, func(in ssa.Instruction) {
+		if ci, ok := in.(ssa.CallInstruction); ok && e.is(in) {
+			out = append(out, ci)
+		}
+	})
+	return out
 }
